@@ -279,6 +279,23 @@ theorem annotmol_one (m : Mol) (v : Nat) :
   have hlt := List.idxOf_lt_length_iff.mpr hmem
   simp [hmem, hlt]
 
+/-- **The processor is stateless**: when one `AnnotateResidues` object is applied to several
+systems / molecules in a row, every application gives what a freshly constructed processor with
+the same configured sequence gives on that input alone (`annotateSystem` is a function of the
+sequence and the system only), and the configuration is unchanged afterwards. -/
+theorem processor_stateless (p : Proc) (ops : List Op) :
+    runHistory p ops = ops.map (freshApply p.sequence) := by
+  induction ops with
+  | nil => rfl
+  | cons op ops ih => simp only [runHistory, procStep, List.map_cons, ih]
+
+theorem processor_config_unchanged (p : Proc) (op : Op) : (procStep p op).1 = p := rfl
+
+/-- in particular: a one-element sequence that was repeated over a first system is repeated
+afresh over a second system of another size -/
+example : runHistory ⟨[7]⟩ [.system [(true, [⟨0, 0, none⟩, ⟨1, 1, none⟩])], .system [(true, [⟨0, 0, none⟩])]]
+    = [.system (.ok [(true, [⟨0, 0, some 7⟩, ⟨1, 1, some 7⟩])]), .system (.ok [(true, [⟨0, 0, some 7⟩])])] := by rfl
+
 /-! non-vacuity -/
 
 /-- two unselected molecules around and between two selected ones; keys not in insertion order,
